@@ -84,7 +84,10 @@ fn trace_row(t: &Trace, c: usize) -> Vec<String> {
 
 pub fn run_case(seed: u64, i: u64, cycles: usize, with_cc: bool) -> CaseOut {
     let mut rng = Rng::for_case(seed, "C02", i);
-    let (opts, mode) = pick_opts(&mut rng);
+    let (mut opts, mode) = pick_opts(&mut rng);
+    if let Ok(w) = std::env::var("VERIF_MAX_WIDTH") {
+        opts.max_width = opts.max_width.min(w.parse().unwrap());
+    }
     let d = generate(&mut rng, &opts);
     let stim = stimulus(&d, &mut rng, cycles);
     run_design(d, mode, stim, with_cc && i % 3 == 0)
@@ -285,8 +288,25 @@ fn report(run: &Run, i: u64, r: Result<CaseOut, vcommon::pool::PanicInfo>) {
             for e in &o.engines_run {
                 run.seen("engines", e);
             }
+            let failed = o.mismatch.is_some() || o.engine_panic.is_some();
             for f in &d.features {
                 run.seen("features", f);
+                if std::env::var("VERIF_FEATURE_STATS").is_ok() {
+                    run.count(&format!("fstat_sim_{f}"), 1);
+                    if failed {
+                        run.count(&format!("fstat_bad_{f}"), 1);
+                    }
+                }
+            }
+            if std::env::var("VERIF_FEATURE_STATS").is_ok() {
+                run.count("fstat_sim_ALL", 1);
+                if failed {
+                    run.count("fstat_bad_ALL", 1);
+                    let kind = o.mismatch.as_ref().map(|m| format!("mismatch:{}", m["engine"].as_str().unwrap_or("?"))).unwrap_or_else(|| {
+                        format!("panic:{}", o.engine_panic.as_ref().map(|p| p.2.rsplit('/').next().unwrap_or("").to_string()).unwrap_or_default())
+                    });
+                    run.count(&format!("fstat_kind_{kind}"), 1);
+                }
             }
             for (e, msg) in &o.engine_build_errors {
                 run.count("engine_build_errors", 1);
